@@ -172,6 +172,11 @@ Section Model.
   Definition stinespring_to_chi po o n D U0 v0 :=
     kraus_to_chi po o n (stinespring_to_kraus (2 ^ n) D U0 v0).
 
+  (* choi_to_kraus after the oracle: eigh returned pairs (lambda_k, v_k); the code keeps those with
+     |lambda_k| > tol and returns sqrt(lambda_k) * unvectorization(v_k).  Here s_k = sqrt(lambda_k). *)
+  Definition choi_to_kraus_from_eig (o : vorder) (evs : list (T * vec T)) : list (mat T) :=
+    map (fun sv => mscal (fst sv) (unvectorize o (snd sv))) evs.
+
   (* ---------------- quantum_networks.py, channels (two systems) *)
   (* QuantumNetwork.from_operator(choi, partition=(p0,p1)) : tensor[(a,a')][(b,b')] = choi[(a,b)][(a',b')] *)
   Definition qn_from_operator (p0 p1 : nat) (C : mat T) : mat T :=
